@@ -1156,7 +1156,26 @@ impl<'a> Walk<'a> {
                             let uint_ty = m.type_registry.register_type(ir::TypeLayer::Scalar(ScalarType::UInt32));
                             self.require("subscript index", uint_ty, ti.0);
                         }
-                        ir::TypeLayer::Object(_) => {}
+                        ir::TypeLayer::Object(o) => {
+                            // buffers are indexed by a `uint`, 2D textures by a `uint2`, 2D texture arrays and 3D textures by a `uint3`
+                            use ir::ObjectType::*;
+                            let width = match o {
+                                Buffer(_) | RWBuffer(_) | StructuredBuffer(_) | RWStructuredBuffer(_) | Texture2DMips(_) | Texture2DArrayMips(_)
+                                | Texture3DMips(_) => Some(1),
+                                Texture2D(_) | Texture2DMipsSlice(_) | RWTexture2D(_) => Some(2),
+                                Texture2DArray(_) | Texture2DArrayMipsSlice(_) | RWTexture2DArray(_) | Texture3D(_) | Texture3DMipsSlice(_)
+                                | RWTexture3D(_) => Some(3),
+                                _ => None,
+                            };
+                            match width {
+                                Some(w) => {
+                                    let uint_ty = m.type_registry.register_type(ir::TypeLayer::Scalar(ScalarType::UInt32));
+                                    let req = if w == 1 { uint_ty } else { m.type_registry.register_type(ir::TypeLayer::Vector(uint_ty, w)) };
+                                    self.require("subscript index", req, ti.0);
+                                }
+                                None => self.errors.push(format!("subscript of an object without subscript: {}", self.show(ta.0))),
+                            }
+                        }
                         _ => self.errors.push(format!("subscript of a non-array: {}", self.show(ta.0))),
                     }
                 }
